@@ -30,7 +30,7 @@ RULE = (
     "names with spaces/quotes/unicode and optional start sector), VHD footer/dynamic-header fields, VDI header fields, HDS "
     "header fields, Parallels DiskDescriptor storages/images/snapshots/TopGUID. Oracle: every exposed attribute equals the value "
     "the builder wrote (attribute-by-attribute). Non-trivial = >= 2 variable-length fields non-empty, or >= 2 snapshots / "
-    "extensions / locator entries / extents."
+    "extensions / locator entries / extents. Every case runs in two process variants: the ambient locale, and the C locale with UTF-8 mode and locale coercion switched off; standalone VMDK descriptors are parsed from text and opened by path."
 )
 ASSUMPTIONS = [
     "QCOW2 backing_format is compared case-insensitively (the reader normalises its case)",
@@ -41,8 +41,18 @@ KINDS = ["qcow2", "qcow2", "vhdx", "vhdx-locator", "vmdk-standalone", "vmdk-embe
 TEXT = "abcXYZ019 _-.()äé中\U0001F98A"
 
 
-def budget(tier):
-    return 16000 if tier == "quick" else 80000
+def budget(tier):  # per process variant
+    return 9000 if tier == "quick" else 45000
+
+
+VARIANT_DISTINCT_SEEDS = True
+REPLAY_ALL_VARIANTS = True  # stored reproductions are re-run under every locale variant
+
+
+def variants(tier):
+    # what the parsers expose must not depend on the process locale / default text encoding
+    return [{"name": "default", "env": {}},
+            {"name": "c-locale", "env": {"LC_ALL": "C", "LANG": "C", "PYTHONCOERCECLOCALE": "0", "PYTHONUTF8": "0"}}]
 
 
 def scratch_dir():
@@ -124,6 +134,13 @@ def locator_entries(draw):
             k += "_"
         vl = draw(st.sampled_from([0, 1, 5, 40, 260, 2000]))
         v = (draw(st.text(alphabet=TEXT + "\\:", min_size=min(vl, 1), max_size=max(1, min(vl, 8)))) * vl)[:vl] if vl else ""
+        # keys and values are UTF-16-LE whatever they start with (U+FEFF / U+FFFE are ordinary characters here, not byte-order marks)
+        mark = draw(st.sampled_from([None, None, None, None, "\ufeff", "\ufffe"]))
+        if mark:
+            if draw(st.booleans()):
+                v = mark + v
+            else:
+                k = mark + k
         out.append([k, v])
     return out
 
@@ -167,6 +184,8 @@ def strategy_(draw, tier):
              "extra_attr": dict(draw(st.lists(st.tuples(st.sampled_from(["isNativeSnapshot", "changeTrackPath", "custom.key"]), st.sampled_from(["no", "disk-ctk.vmdk", "v=1"])), max_size=2, unique_by=lambda x: x[0]))),
              "encoding": draw(st.sampled_from([None, "UTF-8", "windows-1252"]))}
         spec = {"kind": kind, "desc": d}
+        if kind == "vmdk-standalone":
+            spec["by_path"] = draw(st.sampled_from([None, "path", "str"]))
         if kind == "vmdk-embedded":
             e = draw(c02.extent_spec(tier, kind="kdmv", capacity=draw(st.integers(1, 2000)), allow_compressed=False))
             e.pop("descriptor", None)
@@ -376,6 +395,24 @@ class Checks:
         Checks._vmdk_desc_check(dsc, spec["desc"], out, "vmdk-standalone")
         out.nontrivial = len(spec["desc"]["extents"]) >= 2
         out.cls(f"extents={min(len(spec['desc']['extents']), 4)}")
+        if spec.get("by_path") and not out.failures:
+            # the same descriptor (its extent lines left out: their files do not exist) opened as a file on disk, by path
+            from dissect.hypervisor.disk.vmdk import VMDK
+
+            d_ = dict(spec["desc"], extents=[])
+            dd = scratch_dir()
+            try:
+                pth = os.path.join(dd, "descriptor.vmdk")
+                with open(pth, "w", encoding="utf-8", newline="") as f:
+                    f.write(bvmdk.descriptor_text(d_))
+                v, err = lib(VMDK, Path(pth) if spec["by_path"] == "path" else pth)
+                if err:
+                    out.fail(err.sig("vmdk-descriptor-by-path"), f"VMDK(descriptor path) raised {err.describe()}")
+                else:
+                    Checks._vmdk_desc_check(v.descriptor, d_, out, "vmdk-by-path")
+                    out.cls("vmdk-by-path")
+            finally:
+                shutil.rmtree(dd, ignore_errors=True)
 
     @staticmethod
     def vmdk_embedded(spec, out):
